@@ -123,6 +123,8 @@ def bounds(tier):
                                   ("12 records (4 tokens x 3 sizes)", "6 records (2 tokens x 3 sizes)") if tier == "quick" else
                                   ("24 records (4 x 3 x 2: independent hash/rest tokens)", "the same 24 records; length 4: all "
                                    "quadruples over 6 records (2 tokens x 3 sizes)")),
+            "R_odd_sizes": "5 record lists per size spelling in %r (alone, before / after a 2-digit size, between two records, twice): text length and numeric value "
+                           "disagree or the token is no decimal number" % (ODD_SIZES,),
             "R_directions": DIRS_R + DIRS_ONE,
             "H_histories": {"edited_field": "every structured field of every class configuration (34), its table neighbour also present",
                             "initial_records": "sizes of (1, 2) digits; of (17, 1) digits" + ("; of (2, 2, 1) digits" if tier == "thorough" else ""),
@@ -269,6 +271,9 @@ def subsets_for(cname, tier):
     return out
 
 
+ODD_SIZES = ["007", "0123", "+12", "1_0", "0x10", "\u0661\u0662\u0663", "abc", "-1", "1e3", "00", "0000000000000000022"]
+
+
 def record_lists(nsub, tier, seed):
     """all record lists of family R for a field with nsub sub-fields, simplest first"""
     toks, sizes = symbols(seed)
@@ -287,6 +292,12 @@ def record_lists(nsub, tier, seed):
     out += [[a, b, c] for a in triples for b in triples for c in triples]
     if tier == "thorough":
         out += [[a, b, c, d] for a in small for b in small for c in small for d in small]
+    if nsub >= 2:
+        # sizes are white-space-free tokens like any other: spellings whose text length and numeric value disagree (or
+        # that are no decimal number at all) next to plain ones - the column is as wide as the longest size *text*
+        for o in ODD_SIZES:
+            a = [(o if j == 1 else toks[0]) for j in range(nsub)]
+            out += [[a], [a, small[1]], [small[1], a], [small[4], a, small[0]], [a, a]]
     if nsub == 3:
         # a record whose three white-space-free tokens spell a line of another layer of the format (clearsign armor)
         for words in (["-----BEGIN", "PGP", "SIGNATURE-----"], ["-----BEGIN", "PGP", "MESSAGE-----"], ["-----END", "PGP", "SIGNATURE-----"]):
